@@ -628,6 +628,11 @@ func (f *Frame) mapUpdate(x *ssa.MapUpdate) {
 	v := f.get(x.Value).T
 	mt := x.Map.Type().Underlying().(*types.Map)
 	f.safety("nilmap", f.exprText(x.Map), fmt.Sprintf("(not (= %s 0))", m), x.Pos())
+	if sk, ok := f.siteKeys[x]; ok && f.top {
+		// `at call mapupdate#k ...` ghost statements with m / key / val bound
+		f.curArgTypes = []types.Type{x.Map.Type(), x.Key.Type(), x.Value.Type()}
+		f.ghostHooksNamed(sk, []Val{f.get(x.Map), f.get(x.Key), f.get(x.Value)}, Val{}, false, []string{"m", "key", "val"})
+	}
 	if e.con != nil && e.con.MapWrites != "" && !e.dry {
 		// write confinement for maps: the written map satisfies the declared predicate
 		env := f.specEnv(f.heap, nil, nil)
